@@ -325,16 +325,24 @@ func (g *msgGen) anyPayload() proto.Message {
 	case 0:
 		return &schema_testpb.Bar{}
 	case 1:
+		// both members non-empty half of the time: the payload object then has two members, written
+		// in schema order (barId before barField), which is not byte order
+		if r.Bool() {
+			return &schema_testpb.Bar{BarId: "i" + g.text(), BarField: "f" + g.text()}
+		}
 		return &schema_testpb.Bar{BarId: g.text(), BarField: g.text()}
 	case 2:
 		return &schema_testpb.Baz{BazId: g.text()}
 	default:
 		w := &schema_testpb.WrappedOneof{}
-		switch r.Intn(3) {
+		switch r.Intn(4) {
 		case 0:
 			w.Type = &schema_testpb.WrappedOneof_WOneofString{WOneofString: g.text()}
 		case 1:
 			w.Type = &schema_testpb.WrappedOneof_WOneofBar{WOneofBar: &schema_testpb.Bar{BarId: g.text()}}
+		case 2:
+			// nested object with two members whose JSON names are not in byte order (barId, barField)
+			w.Type = &schema_testpb.WrappedOneof_WOneofBar{WOneofBar: &schema_testpb.Bar{BarId: "id-" + g.text(), BarField: "f" + g.text()}}
 		}
 		return w
 	}
@@ -396,6 +404,24 @@ func (g *msgGen) j5Any(m protoreflect.Message) {
 		}
 		if r.Chance(25) { // the stored JSON text is embedded as is: whitespace and member order survive
 			js = []byte(strings.Replace(string(js), "{", "{ ", 1))
+		}
+		if !g.malformed && r.Chance(20) && (tn == "test.schema.v1.Bar" || tn == "test.schema.v1.WrappedOneof") {
+			m.Clear(fs.ByName("proto")) // the text below is the only payload
+			// spellings the codec itself would not write but that are valid payload texts for the type:
+			// members in reverse / arbitrary order, \u escapes, a solidus escape, white space, nesting
+			switch tn {
+			case "test.schema.v1.Bar":
+				js = vh.Pick(r, [][]byte{
+					[]byte(`{"barId":"z","barField":"a"}`), []byte(`{"barField":"a","barId":"z"}`),
+					[]byte(`{"barId":"\u0041\u2028","barField":"x\/y"}`), []byte("{\n \"barId\" : \"b\",\t\"barField\":\"\"}"),
+				})
+			case "test.schema.v1.WrappedOneof":
+				js = vh.Pick(r, [][]byte{
+					[]byte(`{"!type":"wOneofBar","wOneofBar":{"barId":"z","barField":"a"}}`),
+					[]byte(`{"wOneofBar":{"barId":"z","barField":"a"},"!type":"wOneofBar"}`),
+					[]byte(`{"wOneofBar": {"barField":"a", "barId":"z"}}`),
+				})
+			}
 		}
 		if g.malformed && r.Chance(25) {
 			js = vh.Pick(r, [][]byte{[]byte(`{"barId":`), []byte(`nope`), []byte(`{} {}`), []byte("{\"a\":\"\x01\"}")})
